@@ -74,6 +74,34 @@ func (f *Frame) preservedCandidates(p Preserved) []Val {
 			add(v)
 		}
 	}
+	// objects reached through one field of a parameter (e.g. m.parser), read in the current state
+	scan := func(params []Val) {
+		for _, pv := range params {
+			if pv.typ == nil || pv.addr != nil || pv.t == "" {
+				continue
+			}
+			pt, ok := pv.typ.Underlying().(*types.Pointer)
+			if !ok {
+				continue
+			}
+			st, ok := pt.Elem().Underlying().(*types.Struct)
+			if !ok {
+				continue
+			}
+			for i := 0; i < st.NumFields(); i++ {
+				ft, ok := st.Field(i).Type().Underlying().(*types.Pointer)
+				if !ok || typeKey(ft.Elem()) != p.Type {
+					continue
+				}
+				l, li := locField(pt.Elem(), i)
+				add(Val{t: f.vc.sc.define("fieldobj", "Int", f.readAddr(&Addr{kind: "F", loc: l, li: li, ref: pv.t})), typ: st.Field(i).Type()})
+			}
+		}
+	}
+	scan(f.params)
+	if f.vc.topFrame != nil && f.vc.topFrame != f {
+		scan(f.vc.topFrame.params)
+	}
 	return out
 }
 
